@@ -161,19 +161,75 @@ def op_cmds(op):
     return op["cmds"] if op["op"] == "burst" else [[op["id"], op["extra"]]]
 
 
+def coq_events(events):
+    """Event list as a Coq term; long runs of single-OK-datagram events whose fields advance by one are
+    written ERun n rc seq src time."""
+    items, i = [], 0
+    while i < len(events):
+        ds, t = events[i]
+        j = i
+        if len(ds) == 1:
+            rc, s, x = ds[0]
+            while (j + 1 < len(events) and events[j + 1][1] == t + (j + 1 - i) and len(events[j + 1][0]) == 1 and
+                   events[j + 1][0][0] == [rc, (s + j + 1 - i) % 65536, x + j + 1 - i]):
+                j += 1
+        if j - i >= 16:
+            rc, s, x = ds[0]
+            items.append("ERun %d%%N %s %s %s %s" % (j - i + 1, zlit(rc), zlit(s), zlit(x), zlit(t)))
+            i = j + 1
+        else:
+            items.append("ELit (Ev %s %s)" % (vlist(coq_dg(d) for d in ds), zlit(t)))
+            i += 1
+    return "(expand_events %s)" % vlist(items)
+
+
+def coq_cmds(cmds):
+    items, i = [], 0
+    while i < len(cmds):
+        j = i
+        while j + 1 < len(cmds) and cmds[j + 1] == [cmds[i][0] + j + 1 - i, cmds[i][1]]:
+            j += 1
+        if j - i >= 16:
+            items.append("CRun %d%%N %s %s" % (j - i + 1, zlit(cmds[i][0]), zlit(cmds[i][1])))
+            i = j + 1
+        else:
+            items.append("CLit (Cmd %s %s)" % (zlit(cmds[i][0]), zlit(cmds[i][1])))
+            i += 1
+    return "(expand_cmds %s)" % vlist(items)
+
+
+DIGEST_MOD = 2305843009213693951
+TAIL = 24
+
+
+def digest(trace):
+    h = 0
+    for t in trace:
+        xs = {"send": [1] + t[1:5], "select": [2, t[1]], "recv": [3] + t[1:4], "cb": [4] + t[1:5]}[t[0]]
+        for x in xs:
+            h = (h * 1000003 + x + 7) % DIGEST_MOD
+    return h
+
+
 def coq_calls(c, res):
+    """-> (Coq term of the connection and its calls, Coq term of what the implementation did, long?).
+    Long traces are compared through (digest, length, last outputs, outcome)."""
     calls, obs = [], []
+    long = any(len(b["trace"]) > 4000 for b in res["bursts"])
     for (op, idle), b in zip(calls_of(c), res["bursts"]):
         w = op["window"] if op["op"] == "burst" else 1
-        evs = vlist("(Ev %s %s)" % (vlist(coq_dg(d) for d in ds), zlit(t)) for ds, t in b["events"])
         calls.append("(Call (Cf %s %s %s) %s %s %s)" % (
-            zlit(w), zlit(c["n_tries"]), zlit(c["timeout"]),
-            vlist("(Cmd %s %s)" % (zlit(i), zlit(e)) for i, e in op_cmds(op)), zlit(idle), evs))
+            zlit(w), zlit(c["n_tries"]), zlit(c["timeout"]), coq_cmds(op_cmds(op)), zlit(idle),
+            coq_events(b["events"])))
         oc = coq_outcome(b["outcome"])
         if oc is None or any(t[0] == "select" and not isinstance(t[1], int) for t in b["trace"]):
-            return None, None
-        obs.append("(%s, %s, 0%%nat)" % (vlist(coq_output(t) for t in b["trace"]), oc))
-    return "(conn_after %d%%N) %s" % (c.get("advance_seq", 0), vlist(calls)), vlist(obs)
+            return None, None, long
+        if long:
+            obs.append("(%s, %d%%nat, %s, %s, 0%%nat)" % (zlit(digest(b["trace"])), len(b["trace"]),
+                                                        vlist(coq_output(t) for t in b["trace"][-TAIL:]), oc))
+        else:
+            obs.append("(%s, %s, 0%%nat)" % (vlist(coq_output(t) for t in b["trace"]), oc))
+    return "(conn_after %d%%N) %s" % (c.get("advance_seq", 0), vlist(calls)), vlist(obs), long
 
 
 # ------------------------------------------------------------------------------------------ independent oracle
@@ -385,13 +441,13 @@ def run(chk, args):
                                           outcome=res["bursts"][bi]["outcome"]))
         if res["recv_sizes"] not in ([], [512]) or res["blocking"] != [False] * res["nsock"]:
             chk.count("socket-usage-differs")
-        k, obs = coq_calls(c, res)
+        k, obs, long = coq_calls(c, res)
         if k is None:
             chk.disagree("implementation ended in a way the model does not have: %r" %
                          [b["outcome"] for b in res["bursts"]], dict(case=c))
             continue
-        exprs.append("agrees %s %s" % (k, obs))
-        idx.append((c, res, k))
+        exprs.append(("agrees_summary %d%%nat %s %s" % (TAIL, k, obs)) if long else ("agrees %s %s" % (k, obs)))
+        idx.append((c, res, k, long))
     mid = cases[min(len(cases) - 1, 5)]
     chk.sample(dict(case=mid, implementation=[dict(outcome=b["outcome"], trace=b["trace"][:30])
                                               for b in outs[min(len(cases) - 1, 5)]["bursts"]]))
@@ -399,35 +455,30 @@ def run(chk, args):
         try:
             header = ("From Coq Require Import ZArith List. Import ListNotations. Open Scope Z_scope.\n"
                       "Require Import Rig.Model.Base Rig.Model.SCP.\n")
-            order = sorted(range(len(exprs)), key=lambda i: -len(exprs[i]))
-            # longest first, spread over the shards
-            nsh = max(1, min(48, len(exprs) // 40))
-            shards = [order[i::nsh] for i in range(nsh)]
-            flat = [i for s in shards for i in s]
+            cost = [len(res["bursts"][0]["trace"]) if long else len(e) // 40 for e, (c, res, k, long) in zip(exprs, idx)]
+            order = sorted(range(len(exprs)), key=lambda i: -cost[i])
+            nsh = max(1, min(40, len(exprs) // 40))
+            shards = [order[i::nsh] for i in range(nsh)]          # costly ones first, spread over the shards
             size = max(len(s) for s in shards)
-            vals = [None] * len(exprs)
-            # coq_eval shards consecutively: lay the expressions out shard by shard (pad the short ones)
             laid, back = [], []
-            for s in shards:
+            for s in shards:                                     # coq_eval cuts consecutive shards of `size`
                 for j in range(size):
-                    if j < len(s):
-                        laid.append(exprs[s[j]])
-                        back.append(s[j])
-                    else:
-                        laid.append("true")
-                        back.append(None)
+                    laid.append(exprs[s[j]] if j < len(s) else "true")
+                    back.append(s[j] if j < len(s) else None)
             got = chk.coq_eval(header, laid, shard=size, timeout=1500, name="scp")
+            vals = [None] * len(exprs)
             for v, bk in zip(got, back):
                 if bk is not None:
                     vals[bk] = v
             ndis = 0
-            for (c, res, k), v in zip(idx, vals):
+            for (c, res, k, long), v in zip(idx, vals):
                 chk.traces_validated += len(res["bursts"])
                 if v is not True:
                     ndis += 1
                     if ndis <= 3:
                         try:
-                            model = chk.coq_eval(header, ["run_conn %s" % k], name="scp_dis%d" % ndis)[0]
+                            model = chk.coq_eval(header, [("map (summary %d%%nat) (run_conn %s)" % (TAIL, k)) if long
+                                                          else "run_conn %s" % k], name="scp_dis%d" % ndis)[0]
                         except Exception as e:      # noqa
                             model = "model evaluation failed: %s" % e
                         small_model = json.loads(json.dumps(model, default=str))
